@@ -91,6 +91,12 @@ CHECKS = {'C01': {'note': 'trusted: rustc MIR + trait resolution, PANIC_API/SAFE
          'text': 'Decides: UTC and zoned overloads of every calendar accessor agree on the chrono accessor and adjustment (one known finding), each accessor '
                  'uses the chrono accessor with the documented base, time + / - use checked chrono operations, zone names are parsed. Calendar laws and '
                  'uomConvert are not decided.'},
+ 'C17': {'note': 'trusted: rustc MIR; symex summaries (HashSet / ProgramDetails operations are executed symbolically); induction hypothesis: each sub-parse reports the identifiers of its own sub-tree',
+         'technique': 'symbolic execution of the parser MIR with symbolic ProgramDetails: per-path details completeness',
+         'text': 'Decides the data-flow obligation behind the reported parameter list by induction over the grammar: on every builder path of every parse function (templates from symbolic execution, all paths incl. '
+                 'folded operands, untaken ?: branches, call argument blocks, macro bodies, f-string segments, match scrutinees / patterns / arms) the returned node reports the parameter set of every sub-program parsed on '
+                 'that path; an identifier primary registers its own token text and nothing else registers names; the details travel unchanged into the Program; filter_from_bindings keeps a name iff it is not bound as '
+                 'variable, function or macro. The evaluation-relevance criterion is a consequence of the superset property and is not separately decided.'},
  'C19': {'note': 'trusted: serde_derive variant numbering; serde_json float codec',
          'technique': 'ADT/attribute rules over the serde closure',
          'text': 'Decides positional safety of every enum reachable from Program (no serialized variant after a skipped one), codec symmetry, float payload '
@@ -104,8 +110,6 @@ CHECKS = {'C01': {'note': 'trusted: rustc MIR + trait resolution, PANIC_API/SAFE
 NOT_APPLICABLE = {'C02': "the deciding rule (level chain + token table extracted from the parse functions' syntax) needs the syntax-level extractor (synfacts/ETX of DESIGN.md "
         'section 2) which was not built in the time available; no sound cheaper structural clause was found that would not also fire on behaviour-preserving '
         'edits',
- 'C17': 'deciding that details flow on every builder path needs a dataflow over CompiledProg values in the parser (designed, not built). The defect is genuine '
-        'and unrepaired: Program::from_source("size(y)").params() is empty (also x.f(y), [1].map(v, v+q), f\'{x}\')',
  'C18': 'span exactness depends on token positions at run time; the look-ahead typestate rule over the parser was designed but not built'}
 
 
